@@ -233,6 +233,7 @@ def _build():
             max_base=14,
             fork_faults=True,
             declare_var_p=0.3,
+            slm_first_p=0.35,
             chan_ops={"add": 10, "delay": 3, "target": 3, "phase_shift": 2, "align": 2, "enable_eom": 3},
         ),
         lambda: [c09.C09(), c09.Twin(), c09.Relabel(c03.C03(), "C09/live-", only=("C03/not-minimal", "C03/conflict", "C03/barrier"))],
